@@ -962,6 +962,19 @@ func ruleTextIdentity(p *Prog, l *Ledger, tier string) {
 				if cn == "strings.Join" || strings.HasPrefix(cn, "(*strings.Builder).") || strings.HasPrefix(cn, "(*bytes.Buffer).") {
 					continue
 				}
+				if cn == "strings.TrimSuffix" {
+					// the separator written after the last line, cut off again: part of a join recognised as such
+					if ok, _ := builderJoinTrimSuffix(h, true, func(ins ssa.Instruction, name string) (*ssa.Call, bool) {
+						c2, ok := ins.(*ssa.Call)
+						if !ok {
+							return nil, false
+						}
+						sc := c2.Call.StaticCallee()
+						return c2, sc != nil && sc.String() == "(*strings.Builder)."+name
+					}); ok {
+						continue
+					}
+				}
 				usesText := false
 				for _, a := range c.Call.Args {
 					if isStringT(a.Type()) {
@@ -1563,6 +1576,11 @@ func builderJoin(f *ssa.Function, needSep bool) (bool, string) {
 		sc := c.Call.StaticCallee()
 		return c, sc != nil && sc.String() == "(*strings.Builder)."+name
 	}
+	// every line followed by the separator, and the one written after the last line cut off at the end:
+	// return strings.TrimSuffix(b.String(), sep)
+	if ok, what := builderJoinTrimSuffix(f, needSep, isBuilderCall); ok {
+		return true, what
+	}
 	var ret *ssa.Call
 	for _, b := range f.Blocks {
 		r, ok := b.Instrs[len(b.Instrs)-1].(*ssa.Return)
@@ -1892,4 +1910,110 @@ func keptWithoutMapUpdate(lk *ssa.Lookup) ssa.Instruction {
 		}
 	}
 	return nil
+}
+
+// builderJoinTrimSuffix: for each element the function writes the element (directly, in a nested loop over its parts, or
+// through a helper) and then the constant separator, on every trip; it returns strings.TrimSuffix(b.String(), sep) with
+// the same separator. That is strings.Join(elements, sep): with no element the builder is empty, otherwise it holds the
+// join followed by one separator, and TrimSuffix removes exactly that one.
+func builderJoinTrimSuffix(f *ssa.Function, needSep bool, isBuilderCall func(ssa.Instruction, string) (*ssa.Call, bool)) (bool, string) {
+	if !needSep {
+		return false, ""
+	}
+	var trim *ssa.Call
+	n := 0
+	for _, b := range f.Blocks {
+		r, ok := b.Instrs[len(b.Instrs)-1].(*ssa.Return)
+		if !ok {
+			continue
+		}
+		n++
+		if len(r.Results) != 1 {
+			return false, ""
+		}
+		c, ok := r.Results[0].(*ssa.Call)
+		if !ok || calleeName(&c.Call) != "strings.TrimSuffix" {
+			return false, ""
+		}
+		trim = c
+	}
+	if n != 1 || trim == nil {
+		return false, ""
+	}
+	sep, isC := constStr(trim.Call.Args[1])
+	if !isC || sep == "" {
+		return false, ""
+	}
+	str, ok := isBuilderCall(instrOf(trim.Call.Args[0]), "String")
+	if !ok {
+		return false, ""
+	}
+	bld := str.Call.Args[0]
+	// the loop in which the separator is written
+	var outer *loopInfo
+	var sepBlock *ssa.BasicBlock
+	consts := 0
+	for _, b := range f.Blocks {
+		for _, ins := range b.Instrs {
+			c, ok := isBuilderCall(ins, "WriteString")
+			if !ok || c.Call.Args[0] != bld {
+				continue
+			}
+			if cs, isC := constStr(c.Call.Args[1]); isC {
+				if cs == "" {
+					continue
+				}
+				if cs != sep {
+					return false, ""
+				}
+				consts++
+				sepBlock = b
+			}
+		}
+	}
+	if consts != 1 {
+		return false, ""
+	}
+	for _, li := range loopsOf(f) {
+		if li.blocks[sepBlock] && (outer == nil || len(li.blocks) < len(outer.blocks)) {
+			outer = li
+		}
+	}
+	if outer == nil {
+		return false, ""
+	}
+	for _, lt := range outer.latch {
+		if !sepBlock.Dominates(lt) {
+			return false, "" // some line is not followed by the separator
+		}
+	}
+	// the element is written inside the same trip, before the separator
+	elem := false
+	for b := range outer.blocks {
+		for _, ins := range b.Instrs {
+			c, ok := ins.(*ssa.Call)
+			if !ok {
+				continue
+			}
+			uses := false
+			for _, a := range c.Call.Args {
+				if a == bld {
+					uses = true
+				}
+			}
+			if !uses {
+				continue
+			}
+			if wc, isW := isBuilderCall(ins, "WriteString"); isW {
+				if _, isConst := constStr(wc.Call.Args[1]); isConst {
+					continue
+				}
+			}
+			elem = true
+		}
+	}
+	if !elem {
+		return false, ""
+	}
+	return true, "writes every line followed by the separator and returns strings.TrimSuffix(b.String(), sep) with that separator: strings.Join(lines, sep)"
 }
